@@ -24,6 +24,7 @@ import (
 //	new n= dup= seq= srcs= done=<idx,…> secs=<name.off.len.pad+…>/<piece>/…
 //	connect | have p= i= | afast p= i= | unchoke p= | choke p= | snub p= | cancel p= | disc p= | pick p=
 //	pdone p= | wwrite i= | wok i= web= | wfail i= | pickweb k= | wadv k= | closeweb k=
+//	raw API calls outside the protocol (correspondence only): rawsnub|rawchoke|rawunchoke|rawcancel|rawhave p= i= | rawstopat k= i=
 // observation
 //	<result> <picker dump> S=<b.e.c|->,… Q=<choking><closed>;<dl idx:af|->;<allowed fast idx.…|->|…
 //	result: ok | skip | pick=<i>:<af> | pick=- | web=<b>:<e> | web=- | panic:<kind> | dead | nostate
@@ -113,6 +114,8 @@ func panicKind(msg string) string {
 		return "invalid-source"
 	case strings.Contains(msg, "already downloading"):
 		return "already-downloading"
+	case msg == "stopat":
+		return "stopat"
 	case strings.Contains(msg, "index out of range"):
 		return "index"
 	case strings.Contains(msg, "nil pointer") || strings.Contains(msg, "nil map"):
@@ -183,7 +186,11 @@ func (s *pickerSim) apply(op string) (res string) {
 func (s *pickerSim) applyOp(name string, m map[string]string) string {
 	p, i, k := atoi(m["p"]), atoi(m["i"]), atoi(m["k"])
 	_, hasP := m["p"]
-	if hasP && !s.peerOK(p) {
+	if hasP && strings.HasPrefix(name, "raw") {
+		if p < 0 || p >= len(s.peers) {
+			return "skip"
+		}
+	} else if hasP && !s.peerOK(p) {
 		return "skip"
 	}
 	var pe *peer.Peer
@@ -331,6 +338,40 @@ func (s *pickerSim) applyOp(name string, m map[string]string) string {
 		}
 		s.pp.CloseWebseedDownloader(s.srcs[k])
 		return "ok"
+	// raw calls of the exported API outside the loop's protocol (cases `raw-…`: correspondence
+	// only, the invariant is not expected to hold after them)
+	case "rawsnub":
+		s.pp.HandleSnubbed(pe, uint32(i))
+		return "ok"
+	case "rawchoke":
+		s.pp.HandleChoke(pe, uint32(i))
+		return "ok"
+	case "rawunchoke":
+		s.pp.HandleUnchoke(pe, uint32(i))
+		return "ok"
+	case "rawcancel":
+		s.pp.HandleCancelDownload(pe, uint32(i))
+		return "ok"
+	case "rawhave":
+		if i < 0 || i >= s.n() {
+			return "skip" // pe.Bitfield.Set panics first, not the picker
+		}
+		s.pp.HandleHave(pe, uint32(i))
+		return "ok"
+	case "rawstopat":
+		if k < 0 || k >= len(s.srcs) {
+			return "skip"
+		}
+		closed := false
+		func() {
+			defer func() {
+				if r := recover(); r != nil {
+					panic("stopat") // which assertion fires first is not compared
+				}
+			}()
+			closed = s.pp.WebseedStopAt(s.srcs[k], uint32(i))
+		}()
+		return "stop=" + b01(closed)
 	}
 	return "skip"
 }
@@ -439,6 +480,7 @@ func genPicker(r *Rng, cnt int, tier string) []Case {
 	for c := 0; c < cnt; c++ {
 		sim := &pickerSim{}
 		big := r.Chance(10)
+		raw := r.Chance(7)
 		newOp, n, ns := genPickerNew(r, big)
 		ops := []string{newOp}
 		sim.apply(newOp)
@@ -525,6 +567,12 @@ func genPicker(r *Rng, cnt int, tier string) []Case {
 				}
 				delete(webWrites, writing)
 				return o
+			}
+			if raw && r.Chance(12) && len(sim.peers) > 0 {
+				q := r.Intn(len(sim.peers))
+				do(fmt.Sprintf("%s p=%d i=%d k=%d", []string{"rawsnub", "rawchoke", "rawunchoke", "rawcancel", "rawhave", "rawstopat"}[r.Intn(6)],
+					q, r.Pick(r.Intn(n), r.Intn(n), r.Intn(n), n), r.Intn(ns+1)))
+				continue
 			}
 			x := r.Intn(100)
 			if big && r.Chance(45) {
@@ -667,7 +715,11 @@ func genPicker(r *Rng, cnt int, tier string) []Case {
 			}
 			do(op)
 		}
-		cases = append(cases, Case{ID: fmt.Sprintf("picker-%d", c+1), Ops: ops})
+		id := fmt.Sprintf("picker-%d", c+1)
+		if raw {
+			id = fmt.Sprintf("raw-%d", c+1)
+		}
+		cases = append(cases, Case{ID: id, Ops: ops})
 	}
 	return cases
 }
